@@ -365,7 +365,15 @@ fn run_reboot(ctx: &RunCtx, tier: Tier) -> RunOut {
 
 fn parts(tier: Tier) -> Vec<PartDef> {
     let d = tier.pick(3, 4);
+    let dd = tier.pick(0, 1);
     vec![
+        PartDef::new(
+            "waits-under-control-requests",
+            Cfg::new("C12/waits-under-control-requests").dev(dd).free(&["options", "inject", "policy.check", "server.update", "reboot_refusals"]),
+            json!({"driver": "the C11 one-request harness: every operation of the flow blocks (timers included), a request is injected at every step, both select! orders", "deviation_bound": dd,
+                   "oracle": "this property's timer oracle on the same executions"}),
+            move |ctx| crate::props::c11::run_judged_by(ctx, tier, &|log| oracle(log, false)),
+        ),
         PartDef::new(
             "outer-wait",
             Cfg::new("C12/outer-wait").dev(d).free(&["timing.shape", "timing.min_wait", "client", "policy.check"]),
